@@ -119,6 +119,98 @@ pub fn leg_standins() -> Value {
     // A10: chrono
     let t0 = chrono::Utc::now();
     check("(now - t).num_days() of a fresh timestamp is 0", (chrono::Utc::now() - t0).num_days() == 0, "".into());
+    // A5: rusqlite as units U5 / U6 assume it (contracts/u6.vspec: Bind / FromCol renderings, Row::get by position and by name,
+    // query_row "Ok only as the closure's answer on a fetched row", optional(), a BLOB read as exactly its bytes) and std's transpose
+    {
+        use rusqlite::{params, Connection, OptionalExtension};
+        let con = Connection::open_in_memory().expect("in-memory database");
+        let ty = |con: &Connection, p: &dyn rusqlite::ToSql| -> (String, String) {
+            con.query_row("SELECT typeof(?1), quote(?1)", [p], |r| Ok((r.get::<_, String>(0)?, r.get::<_, String>(1)?))).unwrap_or(("?".into(), "?".into()))
+        };
+        for v in [0i64, 1, -1, 1_700_000_000, i64::MAX, i64::MIN] {
+            let t = ty(&con, &v);
+            check("Bind for i64 is INTEGER with that value", t.0 == "integer" && t.1 == v.to_string(), format!("{v}: {t:?}"));
+        }
+        for v in [0u32, 1, 7, u32::MAX] {
+            let t = ty(&con, &v);
+            check("Bind for u32 is INTEGER with that value", t.0 == "integer" && t.1 == v.to_string(), format!("{v}: {t:?}"));
+        }
+        for v in [vec![], vec![0u8], vec![0xff, 0, 0x31, 0x32], b"12345".to_vec(), vec![0xc3, 0x28], (0..=255u8).collect::<Vec<u8>>()] {
+            let hex: String = v.iter().map(|b| format!("{b:02X}")).collect();
+            let t = ty(&con, &v);
+            check("Bind for Vec<u8> is a BLOB with exactly the bytes", t.0 == "blob" && t.1 == format!("X'{hex}'"), format!("{v:?}: {t:?}"));
+            let back: rusqlite::Result<Vec<u8>> = con.query_row("SELECT ?1 AS payload", params![v], |r| r.get("payload"));
+            check("a BLOB column is read as a Vec<u8> holding exactly its bytes (vec_of)", back.as_ref().ok() == Some(&v), format!("{v:?}: {back:?}"));
+        }
+        let t = ty(&con, &"00000000-0000-0000-0000-000000000000".to_string());
+        check("an owned String (StoredUuid's ToSqlOutput) is bound as TEXT", t.0 == "text", format!("{t:?}"));
+        // FromCol: decoding by storage class
+        let r: rusqlite::Result<i64> = con.query_row("SELECT 5", [], |r| r.get(0));
+        check("FromCol i64 from INTEGER", r.as_ref().ok() == Some(&5), format!("{r:?}"));
+        let r: rusqlite::Result<i64> = con.query_row("SELECT 'x'", [], |r| r.get(0));
+        check("FromCol i64 from TEXT is an error", r.is_err(), format!("{r:?}"));
+        let r: rusqlite::Result<u32> = con.query_row("SELECT 4294967295", [], |r| r.get(0));
+        check("FromCol u32 at u32::MAX", r.as_ref().ok() == Some(&u32::MAX), format!("{r:?}"));
+        let r: rusqlite::Result<u32> = con.query_row("SELECT 4294967296", [], |r| r.get(0));
+        check("FromCol u32 above range is an error", r.is_err(), format!("{r:?}"));
+        let r: rusqlite::Result<u32> = con.query_row("SELECT -1", [], |r| r.get(0));
+        check("FromCol u32 below range is an error", r.is_err(), format!("{r:?}"));
+        let r: rusqlite::Result<Option<i64>> = con.query_row("SELECT NULL", [], |r| r.get(0));
+        check("FromCol Option<T> from NULL is None", matches!(r, Ok(None)), format!("{r:?}"));
+        let r: rusqlite::Result<Option<i64>> = con.query_row("SELECT 9", [], |r| r.get(0));
+        check("FromCol Option<T> from a value is Some", matches!(r, Ok(Some(9))), format!("{r:?}"));
+        let r: rusqlite::Result<Option<i64>> = con.query_row("SELECT 'x'", [], |r| r.get(0));
+        check("FromCol Option<T> from an ill-typed value is an error", r.is_err(), format!("{r:?}"));
+        let r: rusqlite::Result<Vec<u8>> = con.query_row("SELECT 'text'", [], |r| r.get(0));
+        check("FromCol Vec<u8> from TEXT is an error", r.is_err(), format!("{r:?}"));
+        let r: rusqlite::Result<Vec<u8>> = con.query_row("SELECT NULL", [], |r| r.get(0));
+        check("FromCol Vec<u8> from NULL is an error", r.is_err(), format!("{r:?}"));
+        // Row::get by position / by name
+        let r: rusqlite::Result<(i64, i64, i64, i64)> = con.query_row("SELECT 1 AS a, 2 AS b", [], |r| Ok((r.get(0)?, r.get(1)?, r.get("a")?, r.get("b")?)));
+        check("Row::get by position and by name address the selected columns", matches!(r, Ok((1, 2, 1, 2))), format!("{r:?}"));
+        let r: rusqlite::Result<i64> = con.query_row("SELECT 1 AS a", [], |r| r.get("nope"));
+        check("Row::get with an unknown name is an error", r.is_err(), format!("{r:?}"));
+        let r: rusqlite::Result<i64> = con.query_row("SELECT 1 AS a", [], |r| r.get(3));
+        check("Row::get with a position out of range is an error", r.is_err(), format!("{r:?}"));
+        // query_row / optional
+        con.execute_batch("CREATE TABLE t (k TEXT, v INTEGER); INSERT INTO t VALUES ('a', 1), ('a', 2), ('b', 3);").expect("set-up");
+        let r: rusqlite::Result<i64> = con.query_row("SELECT v FROM t WHERE k = ? ORDER BY v", ["a"], |r| r.get(0));
+        check("query_row answers with the closure's result on the first row fetched with the bound values", matches!(r, Ok(1)), format!("{r:?}"));
+        let r: rusqlite::Result<i64> = con.query_row("SELECT v FROM t WHERE k = ?", ["zz"], |r| r.get(0));
+        check("query_row without a row is an error", r.is_err(), format!("{r:?}"));
+        let o = con.query_row("SELECT v FROM t WHERE k = ?", ["zz"], |r| r.get::<_, i64>(0)).optional();
+        check("optional() turns 'no rows' into Ok(None)", matches!(o, Ok(None)), format!("{o:?}"));
+        let o = con.query_row("SELECT v FROM t WHERE k = ?", ["b"], |r| r.get::<_, i64>(0)).optional();
+        check("optional() keeps Ok(x) as Ok(Some(x))", matches!(o, Ok(Some(3))), format!("{o:?}"));
+        let o = con.query_row("SELECT k FROM t WHERE k = ?", ["b"], |r| r.get::<_, i64>(0)).optional();
+        check("optional() keeps an error of the mapping closure an error", o.is_err(), format!("{o:?}"));
+        let o = con.query_row("SELECT nope FROM t", [], |r| r.get::<_, i64>(0)).optional();
+        check("optional() keeps an SQL error an error", o.is_err(), format!("{o:?}"));
+        let e = con.execute("INSERT INTO nope VALUES (1)", []);
+        check("execute of a failing statement is an error", e.is_err(), format!("{e:?}"));
+        let e = con.execute("INSERT INTO t VALUES (?, ?)", params!["c", 4]);
+        check("execute of a succeeding statement is Ok", matches!(e, Ok(1)), format!("{e:?}"));
+    }
+    check("Option::<Result>::transpose", None::<Result<i32, ()>>.transpose() == Ok(None) && Some(Ok::<i32, ()>(1)).transpose() == Ok(Some(1)) && Some(Err::<i32, i32>(2)).transpose() == Err(2), "".into());
+    // A10 (U6): chrono's whole-second conversions
+    {
+        use chrono::TimeZone;
+        for sx in [0i64, 1, 1_700_000_000, -5] {
+            let t = chrono::Utc.timestamp_opt(sx, 0);
+            check("Utc.timestamp_opt(s, 0) is Single and .timestamp() gives s back", matches!(t, chrono::LocalResult::Single(d) if d.timestamp() == sx), format!("{sx}"));
+        }
+        let d = chrono::Utc.timestamp_millis_opt(1_234_567).unwrap();
+        check("timestamp() drops sub-second parts; timestamp_millis() is 1000 times finer", d.timestamp() == 1_234 && d.timestamp_millis() == 1_234_567, format!("{d:?}"));
+    }
+    // A14 (U4): Iterator::copied / cloned / collect as the clap stand-ins assume them
+    {
+        let ids = vec![Uuid::new_v4(), Uuid::new_v4(), Uuid::nil()];
+        let set: std::collections::HashSet<Uuid> = ids.iter().copied().collect();
+        check("copied().collect::<HashSet>() holds exactly the values", set.len() == 3 && ids.iter().all(|i| set.contains(i)), format!("{set:?}"));
+        let strs = vec!["b".to_string(), "a".to_string(), "b".to_string()];
+        let v: Vec<String> = strs.iter().cloned().collect();
+        check("cloned().collect::<Vec>() keeps all values in order", v == strs, format!("{v:?}"));
+    }
     json!({"leg": "standins", "cases": cases, "violations": violations,
         "bound": "one or a few sampled values per assumed dependency contract (all 256 byte values for HeaderValue::to_str; 200 random ids for the uuid text round trip); assumptions remain assumptions"})
 }
